@@ -27,3 +27,7 @@ def run(rep: Report, repo: Repo, tier: str) -> None:
     # order of the directory listing
     with rep.isolated():
         fsrules.rule_no_mutation_while_iterating(rep, repo, "C17-R7")
+    from . import fsrules as _fsr
+    with rep.isolated():
+        _fsr.rule_always_regenerates(rep, repo, "C17-R8")
+
